@@ -14,6 +14,7 @@ type Step struct {
 	S       int    `json:"s,omitempty"`
 	PC      int    `json:"pc,omitempty"`
 	Payload string `json:"p,omitempty"`
+	Pin     bool   `json:"pin,omitempty"`
 }
 
 func (s Step) String() string {
@@ -379,7 +380,7 @@ func (x *Exec) Do(i int) StepResult {
 	l := x.Logs[s.R]
 	switch s.Op {
 	case "append":
-		e, err := l.Append(x.W.Ctx, []byte(s.Payload), &iface.AppendOptions{PointerCount: s.PC})
+		e, err := l.Append(x.W.Ctx, []byte(s.Payload), &iface.AppendOptions{PointerCount: s.PC, Pin: s.Pin})
 		return StepResult{Entry: e, Err: err}
 	case "join":
 		_, err := l.Join(x.Logs[s.S], -1)
